@@ -10,7 +10,7 @@ Definition batching (c : config) (tmpl : list limiter) (args : list arg) :=
 (* No fatal outcome among the invocations: all of them run; exit 0 iff every one exited 0,
    123 otherwise (1 when xargs itself had to give up on an argument). *)
 Theorem C19_status_all_ran : forall c tmpl args outs, c_replace c = false ->
-  charge_init (limiters0 c) (c_init c) = Some tmpl -> really_runs c args ->
+  charge_init (limiters0 c) (charged c) = Some tmpl -> really_runs c args ->
   let bs := batches_of (batching c tmpl args) in
   (length bs <= length outs)%nat -> forallb nonfatal (firstn (length bs) outs) = true ->
   xargs_run c args false outs =
@@ -24,7 +24,7 @@ Print Assumptions C19_status_all_ran.
    number |pre| ends the run at once: exactly |pre|+1 invocations were started, and the status
    is 124 / 125 / 126 / 127. *)
 Theorem C19_first_fatal : forall c tmpl args pre o post, c_replace c = false ->
-  charge_init (limiters0 c) (c_init c) = Some tmpl -> really_runs c args ->
+  charge_init (limiters0 c) (charged c) = Some tmpl -> really_runs c args ->
   let bs := batches_of (batching c tmpl args) in
   forallb nonfatal pre = true -> nonfatal o = false -> (length pre < length bs)%nat ->
   xargs_run c args false (pre ++ o :: post) = (fatal_code o, firstn (S (length pre)) bs).
@@ -34,7 +34,7 @@ Print Assumptions C19_first_fatal.
 (* The same two statements under -I, where every line is run as soon as it has been read ([ie]: the reader fails after the last
    line of [args]: those lines have been run all the same, and the status is 1 unless a fatal outcome came first). *)
 Theorem C19_status_all_ran_replace : forall c tmpl args ie outs, c_replace c = true ->
-  charge_init (limiters0 c) (c_init c) = Some tmpl -> Forall (line_runs c tmpl) args ->
+  charge_init (limiters0 c) (charged c) = Some tmpl -> Forall (line_runs c tmpl) args ->
   (length args <= length outs)%nat -> forallb nonfatal (firstn (length args) outs) = true ->
   xargs_run c args ie outs =
   (if ie then 1 else if forallb exit_zero (firstn (length args) outs) then 0 else 123, map (fun a => [a]) args).
@@ -42,7 +42,7 @@ Proof. intros c tmpl args ie outs. exact (replace_no_fatal c tmpl args ie outs).
 Print Assumptions C19_status_all_ran_replace.
 
 Theorem C19_first_fatal_replace : forall c tmpl args ie pre o post, c_replace c = true ->
-  charge_init (limiters0 c) (c_init c) = Some tmpl -> Forall (line_runs c tmpl) args ->
+  charge_init (limiters0 c) (charged c) = Some tmpl -> Forall (line_runs c tmpl) args ->
   forallb nonfatal pre = true -> nonfatal o = false -> (length pre < length args)%nat ->
   xargs_run c args ie (pre ++ o :: post) = (fatal_code o, firstn (S (length pre)) (map (fun a => [a]) args)).
 Proof. intros c tmpl args ie pre o post. exact (replace_first_fatal c tmpl args ie pre o post). Qed.
